@@ -653,7 +653,9 @@ func (r *UnitRun) havocLoop(st *State, m *modSet, extraNames []string, n ast.Nod
 				// captured variable / ghost modified by a closure call
 				if obj, ok := st.names[mod]; ok {
 					if cur, ok := st.vars[obj]; ok {
-						if cur.K == KSlice && cur.S.Obj != nil {
+						if cur.K == KSlice && u.rebinds(mod) {
+							st.vars[obj] = r.havocVal(st, cur, obj.Type(), mod)
+						} else if cur.K == KSlice && cur.S.Obj != nil {
 							st.arrs[cur.S.Obj] = r.fresh("loop_"+sanitize(mod), fmt.Sprintf("(Array Int %s)", cur.S.Obj.elem))
 						} else if cur.K != KFunc && cur.K != KSlice {
 							st.vars[obj] = r.havocVal(st, cur, obj.Type(), mod)
@@ -715,7 +717,7 @@ func (r *UnitRun) loopSpec(s ast.Stmt) (*LoopSpec, int) {
 }
 
 func (r *UnitRun) checkInvs(st *State, ls *LoopSpec, n int, phase string, node ast.Node, auto []string) {
-	env := &SpecEnv{run: r, st: st, old: r.entry, bound: map[string]Val{}}
+	env := &SpecEnv{run: r, st: st, old: r.entry, pre: st.pre[n], bound: map[string]Val{}}
 	for i, a := range auto {
 		r.oblige(st, "inv", fmt.Sprintf("loop%d.auto%d.%s", n, i, phase), a, node, "automatic range-loop invariant ("+phase+")", nil)
 	}
@@ -726,14 +728,14 @@ func (r *UnitRun) checkInvs(st *State, ls *LoopSpec, n int, phase string, node a
 }
 
 func (r *UnitRun) assumeInvs(st *State, ls *LoopSpec, n int) {
-	env := &SpecEnv{run: r, st: st, old: r.entry, bound: map[string]Val{}}
+	env := &SpecEnv{run: r, st: st, old: r.entry, pre: st.pre[n], bound: map[string]Val{}}
 	for _, c := range ls.Inv {
 		st.assume(r.specBool(env, c, fmt.Sprintf("loop %d invariant", n)))
 	}
 }
 
 func (r *UnitRun) loopHints(st *State, ls *LoopSpec, n int, node ast.Node) {
-	env := &SpecEnv{run: r, st: st, old: r.entry, bound: map[string]Val{}}
+	env := &SpecEnv{run: r, st: st, old: r.entry, pre: st.pre[n], bound: map[string]Val{}}
 	for i, c := range ls.Hint {
 		goal := r.specBool(env, c, fmt.Sprintf("loop %d hint", n))
 		r.oblige(st, "hint", fmt.Sprintf("loop%d.%d", n, i), goal, node, "loop hint: "+c.Text, nil)
@@ -742,7 +744,7 @@ func (r *UnitRun) loopHints(st *State, ls *LoopSpec, n int, node ast.Node) {
 }
 
 func (r *UnitRun) variant(st *State, ls *LoopSpec, n int) []string {
-	env := &SpecEnv{run: r, st: st, old: r.entry, bound: map[string]Val{}}
+	env := &SpecEnv{run: r, st: st, old: r.entry, pre: st.pre[n], bound: map[string]Val{}}
 	var out []string
 	for _, c := range ls.Decr {
 		func() {
@@ -769,6 +771,7 @@ func (r *UnitRun) execFor(st *State, s *ast.ForStmt, k func(*State)) {
 		k(s2)
 	}
 	start := func(st *State) {
+		st.snapshotPre(n)
 		r.checkInvs(st, ls, n, "init", s, nil)
 		ms := r.loopModSet(s.Body, s.Post, s.Cond)
 		r.havocLoop(st, ms, ls.Mod, s)
@@ -861,6 +864,7 @@ func (r *UnitRun) execRange(st *State, s *ast.RangeStmt, k func(*State)) {
 	auto := func(st *State) []string {
 		return []string{and(sx("<=", "0", idx(st)), sx("<=", idx(st), xs.Len))}
 	}
+	st.snapshotPre(n)
 	r.checkInvs(st, ls, n, "init", s, auto(st))
 	r.havocLoop(st, ms, ls.Mod, s)
 	setIdx(st, r.fresh("loop_"+ghostName, "Int"))
